@@ -245,13 +245,42 @@ func checkShrinkRefusal(p *Prog, r *Report, overhead int64) {
 				if t.Op != "mval" || t.Obj != forEach {
 					return true
 				}
+				var domStmt *ast.RangeStmt
 				if _, ok := fieldBase(t.Args[0], fRing); !ok {
-					return true
+					// one loop for several rings: for _, q := range [...]*RingBuffer{kcp.snd_queue, kcp.snd_buf} { for seg := range q.ForEach {…} }
+					covers := false
+					domStmt = nil
+					if t.Args[0].Op == "var" {
+						for q := ast.Node(rs); q != nil; q = p.parents[q] {
+							outer, isR := q.(*ast.RangeStmt)
+							if !isR || outer == rs || outer.Value == nil {
+								continue
+							}
+							if v := identVar(p, outer.Value); v == nil || types.Object(v) != t.Args[0].Obj {
+								continue
+							}
+							if lit, isLit := ast.Unparen(outer.X).(*ast.CompositeLit); isLit {
+								for _, el := range lit.Elts {
+									if _, okE := fieldBase(p.Term(el), fRing); okE {
+										covers = true
+										domStmt = outer // a loop over a non-empty literal runs: its header stands for the inner loops
+									}
+								}
+							}
+						}
+					}
+					if !covers {
+						return true
+					}
 				}
 				// the loop must lie before the store on every path: its header dominates
 				var hdr *cfg.Block
+				var hs ast.Stmt = rs
+				if domStmt != nil {
+					hs = domStmt
+				}
 				for _, b := range c.live {
-					if b.Kind == cfg.KindRangeLoop && b.Stmt == rs {
+					if b.Kind == cfg.KindRangeLoop && b.Stmt == hs {
 						hdr = b
 					}
 				}
